@@ -699,39 +699,20 @@ fn test_exponent() {
 
 /// Build a high precision float from each part of literal
 fn calculate_float64_from_parts(left: DigitSequence, right: DigitSequence, exponent: i64) -> f64 {
-    let mut left_combined = 0f64;
+    // Write the literal back out as decimal text and use the standard library to find the nearest value
+    // Accumulating the digits in floating point rounds at every step and drifts away from the written value
+    let mut text = String::new();
+    text.push('0');
     for digit in left {
-        left_combined *= 10f64;
-        left_combined += digit as f64;
+        text.push((b'0' + digit as u8) as char);
     }
-    let left_float = left_combined;
-
-    let mut right_combined = 0f64;
-    let right_len = right.len();
+    text.push('.');
     for digit in right {
-        right_combined *= 10f64;
-        right_combined += digit as f64;
+        text.push((b'0' + digit as u8) as char);
     }
-    let mut right_float = right_combined;
-    for _ in 0..right_len {
-        right_float /= 10f64;
-    }
-
-    let mantissa = left_float + right_float;
-    let mut value64 = mantissa;
-    if exponent > 0 {
-        for _ in 0..exponent {
-            value64 *= 10f64;
-        }
-    } else {
-        let mut m = 1.0;
-        for _ in 0..(-exponent) {
-            m *= 10f64;
-        }
-        value64 /= m;
-    }
-
-    value64
+    text.push('e');
+    text.push_str(&exponent.to_string());
+    text.parse::<f64>().expect("float literal parts are valid")
 }
 
 /// Parse a float literal
